@@ -227,9 +227,9 @@ where
                 l <= self@.len(), l <= other@.len(),
                 l == self@.len() || l == other@.len(),
                 lhs@ == self@.subrange(0, l as int), rhs@ == other@.subrange(0, l as int),
-                seq_cmp(self@, other@) == seq_cmp(self@.skip(i as int), other@.skip(i as int)),
+                seq_cmp(self@, other@) == seq_cmp(self@.skip($LOOPVAR0 as int), other@.skip($LOOPVAR0 as int)),
 //@@ loopbody 0
-            proof { lemma_seq_cmp_step(self@, other@, i as int); }
+            proof { lemma_seq_cmp_step(self@, other@, $LOOPVAR0 as int); }
 //@@ pre
         proof { lemma_seq_cmp_prefix(self@, other@, 0); }
 //@@ end
@@ -238,7 +238,7 @@ where
 //@@ loop 0
             invariant
                 self@.len() == other@.len(),
-                forall|k: int| 0 <= k < i ==> (#[trigger] self@[k]).eq_spec(&other@[k]),
+                forall|k: int| 0 <= k < $LOOPVAR0 ==> (#[trigger] self@[k]).eq_spec(&other@[k]),
 //@@ end
 }
 
